@@ -233,7 +233,7 @@ pub fn check_state(ctx: &Ctx, h: &[Op], t: &Tok) {
 
 pub fn run(tier: Tier) {
     let ctx = Ctx::new("C02", tier);
-    let depth = tier.pick(2, 4);
+    let depth = tier.pick(3, 4);
     let contents: &'static [&'static str] = &["b0", "b3", "b5"];
     let tp: &'static [&'static str] = &["t0"];
     let samples = Samples::new(6);
